@@ -27,9 +27,12 @@ META = {
         "Pyoda.C14.read_write_string_inline", "Pyoda.C14.read_write_string_pooled",
         "Pyoda.C14.read_write_transition", "Pyoda.C14.transition_form", "Pyoda.C14.transition_subtick_truncates",
         "Pyoda.C14.write_dom_raises_byte", "Pyoda.C14.write_dom_raises_count", "Pyoda.C14.write_dom_raises_milliseconds",
-        "Pyoda.C14.write_dom_raises_transition", "Pyoda.C14.pinned_milliseconds_counterexample",
+        "Pyoda.C14.write_dom_raises_transition",
         "Pyoda.C14.read_write_yearOffset", "Pyoda.C14.read_write_alternatingMap", "Pyoda.C14.read_write_recurrence",
         "Pyoda.C14.read_write_precalculatedZone",
+        "Pyoda.C14.read_write_dictionary", "Pyoda.C14.read_write_alternatingMap_pool", "Pyoda.C14.read_write_recurrence_pool",
+        "Pyoda.C14.read_write_precalculatedZone_pool", "Pyoda.C14.read_write_fixedZone",
+        "Pyoda.C14.write_read_canonical", "Pyoda.C14.canonical_decode_reencode", "Pyoda.C14.canonical_check_sound",
     ],
     "trusted_base": [
         "Python str <-> UTF-8 bytes is a bijection on strings without lone surrogates (the model keeps strings as their encodings)",
@@ -37,7 +40,7 @@ META = {
         "io.BytesIO read/write semantics",
     ],
     "partial": [
-        "proved: every primitive (byte, varint, count, signed count, int64, milliseconds, offset, inline and pooled strings, transitions in all five forms), year offset, alternating map, recurrence and the whole precalculated zone (any number of periods, optional tail) with inline strings; NOT proved: dictionary, the composites with a string pool, and write_read_canonical (decode-then-encode reproduces arbitrary canonical bytes) - those are checked by correspondence and by the exhaustive byte-for-byte re-encoding of all 724 rule-based zones of both real files by the code and by the model",
+        "proved: every primitive, year offset, alternating map, recurrence, dictionary, fixed zone and the whole precalculated zone, for inline strings and for any string pool that contains the strings; write_read_canonical for precalculated zones where Canonical = accepted by the strict decoder (every primitive is in the form its writer emits, see milliseconds_form / transition_form / signedCount_form); the same check is evaluated on every zone field of both real files and on ~2 500 mutated fields against the code's own decode-and-re-encode test",
         "write_signed_count has no range check in the code, so there is no write_dom_raises for it (oracle key scount-outside-int32-accepted)",
         "the 172 799 999 millisecond values are covered by the theorem on the model; the code is exercised on every form switch and a seeded sample (quick) ",
     ],
@@ -991,6 +994,18 @@ def run_files(ctx):
             reenc_ops.append(f"zone.reenc {ph} {chunk}")
         ctx.correspond("zones.decode." + rel.split("/")[-1], dump_ops, impl_zone, exhaustive=True)
         ctx.correspond("zones.model-reencode." + rel.split("/")[-1], reenc_ops, impl_reenc_expected, exhaustive=True)
+        # canonical check (strict decoder of PyodaModel/Codec/Canonical.lean, soundness = write_read_canonical): every real
+        # zone field must pass; damaged / non-canonical variants must be classified as the code classifies them
+        canon_ops = [f"zone.canon {ph} " + " ".join(hexs(f) for f in zfs[i:i + step]) for i in range(0, len(zfs), step)]
+        ctx.correspond("zones.canonical." + rel.split("/")[-1], canon_ops, impl_canon, exhaustive=True)
+        real = " ".join(impl_canon(o.split(" ")) for o in canon_ops).split(" ")
+        ctx.note("canonical_real_fields." + rel.split("/")[-1], {k: real.count(k) for k in sorted(set(real))})
+        if any(x not in ("1", "fixed") for x in real):
+            ctx.add_failure({"key": "real-zone-not-canonical", "what": f"{rel}: a zone field of the file is not in canonical form: {sorted(set(real))}"},
+                            op="zones.canonical " + rel, source="oracle")
+        nc = gen_noncanonical(ctx, zfs, ctx.scale(1200, 60_000))
+        nc_ops = [f"zone.canon {ph} " + " ".join(hexs(f) for f in nc[i:i + 40]) for i in range(0, len(nc), 40)]
+        ctx.correspond("zones.noncanonical." + rel.split("/")[-1], nc_ops, impl_canon)
 
 
 def impl_zone(t):
@@ -1014,6 +1029,53 @@ def impl_zone(t):
             raise ValueError("zone type")
         out.append(guard(one))
     return " ".join(out)
+
+
+def impl_canon(t):
+    """the code's own notion of canonical bytes for a zone field: it decodes (constructors included) to the end of the
+    field and the writer, given the same pool, reproduces the payload without adding strings."""
+    from pyoda_time.time_zones._precalculated_date_time_zone import _PrecalculatedDateTimeZone
+    pool = decode_pool(unhex(t[1]))
+    out = []
+    for h in t[2:]:
+        def one(h=h):
+            field = unhex(h)
+            st, r = new_reader(field, pool)
+            zid = r.read_string()
+            if r.read_byte() != 2:
+                return "fixed"
+            start = st.tell()
+            z = _PrecalculatedDateTimeZone._read(r, zid)
+            if st.tell() != len(field):
+                return "0"
+            plist = list(pool)
+            buf, w = new_writer(plist)
+            z._write(w)
+            return "1" if buf.getvalue() == field[start:] and len(plist) == len(pool) else "0"
+        out.append(guard(one))
+    return " ".join(out)
+
+
+def gen_noncanonical(ctx, zfs, n):
+    """zone fields that mostly still decode but are not what the writer emits: over-long varints, wrong millisecond /
+    transition forms (by byte substitution), trailing bytes"""
+    rng = ctx.rng
+    out = []
+    for f in zfs[:60]:
+        p = 0
+        while f[p] >= 0x80:
+            p += 1
+        p += 2                                   # pooled id, type byte -> period count
+        if p < len(f) and f[p] < 0x80:
+            out.append(f[:p] + bytes([f[p] | 0x80, 0x00]) + f[p + 1:])      # over-long count
+        out.append(f + b"\x00")                                               # trailing byte
+    for _ in range(n):
+        f = bytearray(rng.choice(zfs))
+        for _ in range(rng.choice([1, 1, 2])):
+            p = rng.randrange(len(f))
+            f[p] = rng.choice([(f[p] + 1) % 256, (f[p] - 1) % 256, f[p] ^ 0x80, 0x30, 0x32, 0x2e, rng.randrange(256)])
+        out.append(bytes(f))
+    return out
 
 
 def impl_reenc_expected(t):
